@@ -20,8 +20,20 @@ def falsify_single(ctx, case: Dict) -> bool:
     stage = "build"
     try:
         with core.time_limit(40):
-            ind = X.build(spec, X.mk_rows(rows), case.get("cfg", {}))
-            base_keys = keys_by_candle(ind)
+            if case.get("split") is not None:
+                # met the stream through appends: what recalculate() replaces are those readings
+                k_ = case["split"]
+                ind = X.build(spec, X.mk_rows(rows[:k_]), case.get("cfg", {}))
+                ind.calculate()
+                j_ = k_
+                while j_ < len(rows):
+                    ind.append(X.mk_rows(rows[j_:j_ + case["step"]]))
+                    j_ += case["step"]
+                twin = X.build(spec, X.mk_rows(rows), case.get("cfg", {}))
+                base_keys = keys_by_candle(twin)
+            else:
+                ind = X.build(spec, X.mk_rows(rows), case.get("cfg", {}))
+                base_keys = keys_by_candle(ind)
             ind.calculate()
             s1 = E.snapshot(ind)
             stage = "calculate-again"
@@ -392,7 +404,17 @@ def run(ctx: core.Ctx) -> int:
         n = rng.randint(3, 50 if not ctx.thorough else 140)
         spec = X.gen_spec(rng, kind, ctx.thorough, inputs=("close", "high", "src"))
         rows = X.gen_rows(rng, n)
-        singles.append({"spec": spec, "rows": rows, "cfg": {}, "probes": [rng.randrange(1000) for _ in range(3)]})
+        c_ = {"spec": spec, "rows": rows, "cfg": {}, "probes": [rng.randrange(1000) for _ in range(3)]}
+        if rng.random() < 0.3:
+            c_["split"], c_["step"] = rng.randint(0, n), rng.choice([1, 1, 2, 5])
+        singles.append(c_)
+    for k_ in range(ctx.n(16, 160)):
+        # pattern wrappers over streams with planted shapes (one of them on the newest candle), fed through appends
+        pc = E.gen_pattern_base_case(rng, ctx, k_)
+        from .. import analysis as A_
+        A_.plant(pc["rows"], len(pc["rows"]) - 1, pc["spec"]["analysis"]["f"])
+        singles.append({"spec": pc["spec"], "rows": pc["rows"], "cfg": {}, "probes": [rng.randrange(1000) for _ in range(3)],
+                        "split": rng.randint(0, 3), "step": rng.choice([1, 1, 2])})
     for c in singles:
         ctx.count("eval_falsifier")
         falsify_single(ctx, c)
